@@ -40,6 +40,12 @@ func (fc *FuncCtx) bindResults(res ssa.Value, tvs []TV) {
 	if res == nil {
 		return
 	}
+	if ci, ok := res.(ssa.CallInstruction); ok && fc.top == nil && len(tvs) > 0 {
+		key := fc.siteKey(ci.Common())
+		n := fc.callSites[key]
+		fc.callSites[key]++
+		fc.siteResults[fmt.Sprintf("%s#%d", key, n)] = tvs[0]
+	}
 	switch len(tvs) {
 	case 0:
 	case 1:
@@ -96,6 +102,7 @@ func (fc *FuncCtx) call(res ssa.Value, c *ssa.CallCommon, st *State, reach strin
 	if b, ok := c.Value.(*ssa.Builtin); ok && !c.IsInvoke() {
 		return fc.builtin(res, b, c, args, st, reach)
 	}
+	fc.atAsserts(c, args, st, reach)
 	if c.IsInvoke() {
 		recv := fc.v(c.Value)
 		key := "iface:" + c.Value.Type().String() + "." + c.Method.Name()
@@ -149,6 +156,77 @@ func (fc *FuncCtx) call(res ssa.Value, c *ssa.CallCommon, st *State, reach strin
 	}
 	eng.warn("dynamic call %s without contract: all heaps havoc'd (in %s)", key, fc.fnName)
 	return fc.unknownCall(res, sig, st, key)
+}
+
+// siteKey: the short callee name used in obligation names and `at call` rules.
+func (fc *FuncCtx) siteKey(c *ssa.CallCommon) string {
+	if c.IsInvoke() {
+		return shortCallee(c.Value.Type().String() + "." + c.Method.Name())
+	}
+	if f := c.StaticCallee(); f != nil {
+		return shortCallee(f.String())
+	}
+	return "funcval:" + shortCallee(fc.funcValKey(c.Value))
+}
+
+// atAsserts checks the caller's `at call` / `at effect` assertions for this site.
+func (fc *FuncCtx) atAsserts(c *ssa.CallCommon, args []TV, st *State, reach string) {
+	t := fc.topCtx()
+	if t.con == nil || len(t.con.Ats) == 0 || fc.top != nil {
+		return
+	}
+	key := fc.siteKey(c)
+	t.atSites[key]++
+	site := t.atSites[key] - 1
+	var effects []string
+	var ccon *Contract
+	if c.IsInvoke() {
+		ccon = fc.eng.byKey["iface:"+c.Value.Type().String()+"."+c.Method.Name()]
+		if ccon == nil {
+			ccon = fc.eng.ifaceFallback(c)
+		}
+	} else if f := c.StaticCallee(); f != nil {
+		ccon = fc.eng.byKey[f.String()]
+	} else {
+		ccon = fc.eng.byKey["funcval:"+fc.funcValKey(c.Value)]
+	}
+	if ccon != nil {
+		effects = ccon.Effects
+	}
+	var env *Env
+	for i, r := range t.con.Ats {
+		match := false
+		switch r.Kind {
+		case "call":
+			match = r.Target == key && (r.Site < 0 || r.Site == site)
+		case "effect":
+			for _, ef := range effects {
+				if ef == r.Target {
+					match = true
+				}
+			}
+		}
+		if !match {
+			continue
+		}
+		t.atMatched[i]++
+		if env == nil {
+			vars := fc.namesAt(fc.curInstr)
+			all := args
+			if c.IsInvoke() {
+				all = append([]TV{fc.v(c.Value)}, args...)
+			}
+			for k, a := range all {
+				vars[fmt.Sprintf("arg%d", k)] = a
+			}
+			env = fc.envFor(st, vars)
+		}
+		var tt string
+		if err := catchTr(fmt.Sprintf("%s at-rule %d", t.fnName, i), func() { tt = env.trBool(r.C.E) }); err != nil {
+			panic(trErr(err.Error()))
+		}
+		fc.oblige(fmt.Sprintf("at@%s#%d", key, site), clauseLabel(r.C, i), reach, tt, "assertion at call to "+key+": "+r.C.Src, r.C.Tags)
+	}
 }
 
 // funcValKey names a function value by where it comes from: a parameter name, a
@@ -465,6 +543,11 @@ func (fc *FuncCtx) havocTarget(env *Env, target Expr, st *State, base string) {
 		case "allof":
 			// allof("F.S_x.f"): the whole heap
 			st.havoc(c.Args[0].(EStr).Val)
+			return
+		case "group":
+			for _, h := range eng.groupHeaps(c.Args[0].(EIdent).Name) {
+				st.havoc(h)
+			}
 			return
 		case "fields":
 			// fields(p): every field of the object p points to
@@ -958,6 +1041,10 @@ func (e *Engine) contractMods(con *Contract, callee *ssa.Function, sig *types.Si
 				out["*"] = true
 			case "allof":
 				out[x.Args[0].(EStr).Val] = true
+			case "group":
+				for _, h := range e.groupHeaps(x.Args[0].(EIdent).Name) {
+					out[h] = true
+				}
 			case "fields":
 				if t := typeOf(x.Args[0]); t != nil {
 					if el, ok := deref(t); ok {
@@ -1045,6 +1132,11 @@ func (fc *FuncCtx) frameTargets() (byHeap map[string][]string, ghosts map[string
 				continue
 			case "allof":
 				whole[c.Args[0].(EStr).Val] = true
+				continue
+			case "group":
+				for _, h := range fc.eng.groupHeaps(c.Args[0].(EIdent).Name) {
+					whole[h] = true
+				}
 				continue
 			case "fields":
 				v := env.tr(c.Args[0])
